@@ -723,8 +723,8 @@ void caseOrder(vrt::Case& c)
 int main(int argc, char** argv)
 {
   vector<vrt::Group> groups = {
-    { "history", 12960, 648000, caseHistory, 600, false },
-    { "order", 1500, 30000, caseOrder, 600, false },
+    { "history", 51840, 2592000, caseHistory, 600, false },
+    { "order", 4500, 90000, caseOrder, 600, false },
   };
   vrt::Meta meta;
   meta.rule = "history: index -> (scheme 2/3/5 points, 1..4 variables, total degree 0..5, wrapped as Function / FirstOrderDerivable / SecondOrderDerivable, cross derivatives on/off); random "
